@@ -38,7 +38,10 @@ def run(res, replay=None):
             else:
                 # every other one-locus configuration carries its own (early) end time: the end time bounds the window
                 # over which MOMENTS accumulate; the cdf / density / quantiles still describe the full time to the MRCA
-                s = gen.rand_spec(rng, n_total=rng.choice([2, 2, 3, 4]), n_epochs=rng.choice([1, 2, 3]),
+                # every fourth configuration: two demes and a boundary at which ONLY migration rates change
+                mob = (i % 4 == 2)
+                s = gen.rand_spec(rng, n_total=rng.choice([2, 2, 3, 4] if not mob else [2, 3]), n_epochs=rng.choice([1, 2, 3]),
+                                  n_demes=(2 if mob else None), mig_only_boundary=mob,
                                   end_time=('always' if i % 2 == 0 else 'never'))
             specs.append(s)
     qs_levels = [0.05, 0.5, 0.9, 0.99]
